@@ -12,13 +12,39 @@ import c04_gen
 INPLACE_WRITE = {'iadd', 'isub', 'iadd_prefactor_other', 'iscale', 'iscale_prefactor'}       # may write into shared buffers
 INPLACE_REBIND = {'itranspose', 'iconj', 'iscale_axis', 'ireplace_label', 'ipurge_zeros', 'isort_qdata', 'imake_contiguous'}
 INPLACE = INPLACE_WRITE | INPLACE_REBIND | {'iproject', 'setitem'}
+# functions DOCUMENTED to return a (possibly) shallow copy, i.e. a tensor that shares its block buffers with the operand:
+# Array.copy(deep=False), gauge_total_charge ("a shallow copy"), sort_legcharge (nothing to sort: shallow copy),
+# replace_label(s) ("Return a shallow copy"), add_trivial_leg ("A (possibly) *shallow* copy"), astype(copy=False)
+SHALLOW_DOC = {'copy_shallow', 'gauge_total_charge', 'sort_legcharge', 'replace_label', 'add_trivial_leg', 'astype_nocopy'}
 
 
 class Hist(c04_gen.Prog):
     """histories with aliasing: many shallow/deep copies, operands used twice, in-place writes through copies"""
 
-    def __init__(self, rng):
-        super().__init__(rng, empty_blocks=False, bad_rate=0.03, allow_alias_writes=True, worker_rate=0.0)
+    def __init__(self, rng, style='generic'):
+        """style (block structure of the operands):
+        'generic'  legs with 1-4 charge blocks, tensors with many blocks (as before);
+        'single'   every leg is ONE charge block (tensors without charge conservation / of product states: exactly one
+                   stored block, every pipe has a single q_map row -> the single-block fast paths of combine_legs/split_legs);
+        'mixed'    half of the legs are one block;
+        'oneblock' generic legs, but most tensors store exactly one of their allowed blocks (one populated charge sector)"""
+        mods = None
+        if style == 'single' and rng.random() < 0.4:
+            mods = []                                   # no charges at all (ChargeInfo trivial)
+        super().__init__(rng, mods=mods, empty_blocks=False, bad_rate=0.03, allow_alias_writes=True, worker_rate=0.0)
+        self.style = style
+        if style in ('single', 'mixed'):
+            for l in self.pool:
+                if style == 'single' or rng.random() < 0.5:
+                    l['sizes'] = [rng.choice([1, 2, 2, 3])]
+                    l['charges'] = l['charges'][:1]
+
+    def new(self, *a, **kw):
+        r = super().new(*a, **kw)
+        spec = self.steps[r].get('spec')
+        if self.style == 'oneblock' and spec and len(spec['blocks']) > 1 and self.rng.random() < 0.7:
+            spec['blocks'] = spec['blocks'][:1]
+        return r
 
     def dims(self, r):
         """index lengths of the legs of register r when they are base legs"""
@@ -55,10 +81,39 @@ class Hist(c04_gen.Prog):
                 c = self.push({'op': 'conj', 'a': a}, self.arr([c04_gen.conj_t(t) for t in A['legs']], [c04_gen.conj_label(l) for l in A['labels']]))
                 return self.push({'op': 'inner', 'a': a, 'b': c, 'axes': 'range', 'do_conj': False}, {'kind': 'scalar'})
             return self.push({'op': 'concatenate', 'a': a, 'b': b, 'axis': rng.randrange(n)}, self.arr_opaque())
-        if r < 0.40:
+        if r < 0.43:
             d = self.dims(a)
             k = rng.choice(['iproject', 'scale_axis', 'iscale_axis', 'permute', 'gauge', 'ireplace_label', 'take_slice', 'setitem',
-                            'ipurge_zeros', 'isort_qdata', 'legcharge_ops', 'to_ndarray', 'norm'])
+                            'ipurge_zeros', 'isort_qdata', 'legcharge_ops', 'to_ndarray', 'norm',
+                            'combine_split', 'combine_split', 'replace_label', 'add_trivial_leg', 'astype_nocopy', 'zeros_like',
+                            'getitem_slice'])
+            if k == 'combine_split':
+                # the combined tensor stays alive while it is split again (and both are used by later steps)
+                c = self.combine(a)
+                if c is None:
+                    return self.new()
+                if rng.random() < 0.3:
+                    self.push({'op': 'copy_shallow', 'a': c}, self.arr_opaque())
+                return self.push({'op': 'split', 'a': c, 'axes': None, 'cutoff': 0.0}, self.arr_opaque())
+            if k == 'replace_label':
+                labs = [l for l in A['labels'] if l not in (None, c04_gen.UNK)]
+                new = rng.choice(['x', 'y', 'z', 'w'])
+                if labs and new not in A['labels']:
+                    old = rng.choice(labs)
+                    return self.push({'op': 'replace_label', 'a': a, 'old': old, 'new': new},
+                                     self.arr(A['legs'], [new if l == old else l for l in A['labels']]))
+                k = 'zeros_like'
+            if k == 'add_trivial_leg':
+                t = self.push({'op': 'add_trivial_leg', 'a': a, 'axis': rng.randrange(n + 1), 'label': rng.choice([None, 'triv']),
+                               'qconj': rng.choice([1, -1])}, self.arr_opaque())
+                if rng.random() < 0.5:
+                    return self.push({'op': 'squeeze', 'a': t}, self.arr_opaque())
+                return t
+            if k == 'astype_nocopy':
+                return self.push({'op': 'astype_nocopy', 'a': a, 'dtype': rng.choice([None, None, 'complex128', 'float64'])},
+                                 self.arr(A['legs'], A['labels']))
+            if k in ('zeros_like', 'getitem_slice'):
+                return self.push({'op': k, 'a': a}, self.arr(A['legs'], A['labels']))
             if d is None and k in ('iproject', 'scale_axis', 'iscale_axis', 'permute', 'take_slice', 'setitem', 'legcharge_ops'):
                 k = 'norm'
             ax = rng.randrange(n)
@@ -98,7 +153,7 @@ class Hist(c04_gen.Prog):
             if k in ('ipurge_zeros', 'isort_qdata'):
                 return self.push({'op': k, 'a': a}, {'kind': 'none'})
             return self.push({'op': k, 'a': a}, {'kind': 'scalar'})
-        if r < 0.46:
+        if r < 0.48:
             types = [['L', rng.randrange(len(self.pool)), rng.choice([1, -1])] for _ in range(rng.choice([1, 2, 2, 3]))]
             qt = [rng.randint(-7, 9) for _ in self.mods]          # deliberately NOT reduced modulo mod
             return self.push({'op': 'zeros_qtotal', 'legs': types, 'qtotal': qt, 'dtype': rng.choice(['float64', 'complex128']),
@@ -144,8 +199,11 @@ def gen_setitem_alias(rng):
     return p.finish_random(2)
 
 
+STYLES = ['generic'] * 11 + ['single'] * 4 + ['mixed'] * 3 + ['oneblock'] * 2
+
+
 def gen_history(rng):
-    p = Hist(rng)
+    p = Hist(rng, rng.choice(STYLES))
     return p.finish_random(rng.choice([6, 8, 10, 12]))
 
 
@@ -163,9 +221,17 @@ class KeyedCtx:
         self.ctx.fail(kind, what + (' [%s]' % match_key if match_key else ''), case, match_key=match_key)
 
 
-def judge(ctx, stream, cfg, case, res):
+def natlist(xs):
+    """Coq literal of a list of nat (typed also when empty: a replay may consist of empty lists only)"""
+    xs = list(xs)
+    return '[' + '; '.join('%d%%nat' % x for x in xs) + ']' if xs else '(@nil nat)'
+
+
+def judge(ctx, stream, cfg, case, res, newshare=None):
     """rules of the property text applied to the runner's report; returns the list of model steps"""
     ctx = KeyedCtx(ctx)
+    state = {'shares': set(), 'newshare': newshare if newshare is not None else {}}
+    mshares = []        # per model step: the register pairs the implementation observed to own common block memory
     alias = {}          # register -> set of registers that share block buffers through copy(deep=False)
     msteps = []
     model_ok = True
@@ -208,24 +274,54 @@ def judge(ctx, stream, cfg, case, res):
         for name in rec.get('ext_changed', []):
             ctx.fail('oracle', '[%s] step %d: %s changed its argument `%s` (a numpy array of the caller)' % (cfg, si, op, name),
                      ctxinfo, match_key='C03:%s:argument-%s-mutated:%s' % (op, name, cfg))
+        # rule 5: no hidden aliasing.  The fingerprints above only show that nothing changed AT THIS MOMENT; a result that
+        # secretly shares a block buffer with a live tensor corrupts it at the next buffer-writing in-place method.  So the
+        # memory of all block buffers is compared after every step: a NEW pair of tensors with common block memory may only
+        # be (result of a documented shallow copy, its operand or a tensor the operand already shared memory with).
+        sh = {tuple(p) for p in rec.get('shares', [])}
+        newpairs = sh - state['shares']
+        for (x, y) in sorted(newpairs):
+            ok = y in alias.get(x, ())        # members of one family of documented shallow copies (e.g. the first block
+            #                                     stored through a shallow copy of a tensor without blocks)
+            if op in SHALLOW_DOC and si in (x, y):
+                other = x if y == si else y
+                ok = ok or other == st['a'] or (min(other, st['a']), max(other, st['a'])) in state['shares']
+            stat = state['newshare'].setdefault(op, [0, 0])
+            stat[0 if ok else 1] += 1
+            if not ok:
+                pr = rec.get('probe') or {}
+                tgt = pr.get('target')
+                who = 'its result' if recv is None else 'the receiver'
+                shown = ('; writing +1 into the block buffers of r%s changed the dense values of r%s' % (tgt, pr.get('changed'))
+                         if pr.get('changed') else '; (write probe: %s)' % pr)
+                ctx.fail('oracle', '[%s] step %d: %s (operands r%s, r%s) is not documented to return a view, but afterwards r%d and r%d '
+                         'own block buffers with common memory (%s = r%s)%s: the next buffer-writing in-place method (iscale_prefactor, '
+                         'iadd_prefactor_other, __setitem__) on one of them silently changes the other' % (
+                             cfg, si, op, st.get('a'), st.get('b'), x, y, who, si if recv is None else recv, shown),
+                         ctxinfo, match_key='C03:%s:hidden-buffer-sharing' % op)
+        state['shares'] = sh
         # bookkeeping of shallow copies
-        if op in ('copy_shallow', 'gauge_total_charge', 'sort_legcharge') and not failed:      # documented to return a shallow copy
+        if op in SHALLOW_DOC and not failed:      # documented to return a shallow copy
             g = alias.setdefault(st['a'], {st['a']})
             g.add(si)
             alias[si] = g
         # ---- model step
         if model_ok:
             ra, rb = st.get('a', 0), st.get('b', 0)
-            if failed and op in INPLACE:
-                model_ok = False        # a half-executed in-place method: stop the model replay here
+            if (failed and op in INPLACE) or (op == 'setitem' and newpairs):
+                # a half-executed in-place method / __setitem__ storing a NEW block through a shallow copy (the model has no
+                # block insertion; the oracle rules above judge it): stop the model replay here
+                model_ok = False
                 continue
             if failed:
-                k = '(HNew 0%nat [])'
+                k = '(HNew 0%nat (@nil nat))'
             elif op == 'new' or op == 'zeros_qtotal':
                 spec = st.get('spec') or st
                 nb = len(spec['blocks']) if 'blocks' in spec else 1
-                k = '(HNew %d%%nat %s)' % (min(nb, 30), '[' + '; '.join('%d%%nat' % t[1] for t in spec['legs']) + ']')
-            elif op in ('copy_shallow', 'copy_deep', 'gauge_total_charge', 'sort_legcharge'):
+                # at least one buffer: in-place methods can add blocks to a tensor that stores none (a += b), and the model
+                # keeps the number of buffers of a tensor fixed; its shallow copies share the _data LIST in any case
+                k = '(HNew %d%%nat %s)' % (max(1, min(nb, 30)), natlist(t[1] for t in spec['legs']))
+            elif op == 'copy_deep' or op in SHALLOW_DOC:
                 k = '(HCopy %s)' % ('true' if op == 'copy_deep' else 'false')
             elif op in ('iscale', 'iscale_prefactor'):
                 k = 'HMapWrite' if cfg == 'cy' else 'HRebind'
@@ -247,8 +343,9 @@ def judge(ctx, stream, cfg, case, res):
                 k = 'HTensordot'
             else:
                 k = 'HUnary'
-            msteps.append('(%s, %d%%nat, %d%%nat, %s)' % (k, ra, rb, '[' + '; '.join('%d%%nat' % x for x in sorted(x for x, w in changed.items() if set(w) - {'sane'})) + ']'))   # consistency is judged by rule 2
-    return msteps
+            mshares.append('[' + '; '.join('(%d%%nat, %d%%nat)' % p for p in sorted(sh)) + ']' if sh else '(@nil (nat * nat))')
+            msteps.append('(%s, %d%%nat, %d%%nat, %s)' % (k, ra, rb, natlist(sorted(x for x, w in changed.items() if set(w) - {'sane'}))))   # consistency is judged by rule 2
+    return list(zip(msteps, mshares))
 
 
 def main(ctx):
@@ -265,7 +362,7 @@ def main(ctx):
         cases = [replay_doc['case']] if replay_doc.get('stream') == 'history' else []
     cases += [gen_history(rng) for _ in range(nh)] + [gen_setitem_alias(rng) for _ in range(min(nh, 8))]
     mps_cases = [replay_doc['case']] if replay_doc and replay_doc.get('stream') == 'mps' else []
-    for i in range(ctx.pick(10, 60) if replay_doc is None else 0):
+    for i in range(ctx.pick(14, 70) if replay_doc is None else 0):
         mps_cases.append({'seed': ctx.seed * 1000 + i, 'model': rng.choice(['xxz', 'tfi']), 'L': rng.choice([4, 5, 6]),
                           'bc': rng.choice(['finite', 'finite', 'infinite']), 'conserve': None, 'form_A': rng.random() < 0.3,
                           'combine': rng.random() < 0.5})
@@ -273,6 +370,11 @@ def main(ctx):
         m['conserve'] = rng.choice(['Sz', 'parity', None]) if m['model'] == 'xxz' else rng.choice(['parity', None])
         if m['bc'] == 'infinite':
             m['L'] = 4
+        # how the MPS stores its tensors (B / A / C / Th on all sites, or a different form on every site) and whether it is
+        # entangled or still the product state (one block per tensor, trivial bonds)
+        sf = rng.choice([None, None, 'A', 'C', 'Th', 'mixed', 'mixed'])
+        m['store_form'] = [rng.choice(['A', 'B', 'C', 'Th', 'B', 'A', 'G']) for _ in range(m['L'])] if sf == 'mixed' else sf
+        m['entangle'] = rng.random() < 0.75
     items = [('mps', c) for c in mps_cases] + [('history', c) for c in cases]
     from concurrent.futures import ThreadPoolExecutor
     common.cy_build()
@@ -292,13 +394,15 @@ def main(ctx):
     # ---- histories
     coq_cases, coq_src = [], []
     opstat = {}
+    newshare = {}
+    npairs = 0
     for cfg in ('py', 'cy'):
         for ci, c in enumerate(cases):
             r = out[cfg][len(mps_cases) + ci]
             if 'runner_error' in r or 'crash' in r:
                 ctx.fail('correspondence', 'history runner failed (%s): %s' % (cfg, str(r)[-500:]), {'stream': 'history', 'case': c})
                 continue
-            ms = judge(ctx, 'history', cfg, c, r)
+            ms = judge(ctx, 'history', cfg, c, r, newshare)
             shallow = sum(1 for s in c['steps'] if s['op'] == 'copy_shallow')
             inpl = sum(1 for s in c['steps'] if s['op'] in INPLACE)
             for s, rec in zip(c['steps'], r['steps']):
@@ -306,17 +410,32 @@ def main(ctx):
                 opstat[k] = opstat.get(k, 0) + 1
             ctx.count('history-' + cfg, c, nontrivial=shallow > 0 or inpl > 0,
                       sample={'ops': [s['op'] for s in c['steps']], 'changed': [rec['changed'] for rec in r['steps']]})
-            coq_cases.append('(%d%%nat, [%s])' % (len(c['pool']), '; '.join(ms)))
+            coq_cases.append('(%d%%nat, %s)' % (len(c['pool']), '[' + '; '.join('(%s, %s)' % p for p in ms) + ']' if ms
+                                                   else '(@nil hstep_sh)'))
             coq_src.append((cfg, ci))
+            npairs += sum(len(rec.get('shares', [])) for rec in r['steps'])
     ctx.cov['input_distribution'] = opstat
-    bad, err = common.coq_failing_indices('cases_c03', ['Base.Prelude', 'Model.Store'], 'check_history_applicable', coq_cases, shard=150)
+    ctx.cov['new_memory_sharing_by_op'] = {k: {'documented': v[0], 'undocumented': v[1]} for k, v in sorted(newshare.items())}
+    # one evaluation per history: (1) the history is applicable and every observed change is allowed by may_change,
+    # (2) every pair of tensors that owns common block memory in the implementation shares a buffer in the model
+    imports = ['Base.Prelude', 'Model.Store', 'Model.StoreShare']
+    both = '(fun c => check_history_applicable (fst c, map fst (snd c)) && check_shares c)'
+    bad, err = common.coq_failing_indices('cases_c03', imports, both, coq_cases, shard=150)
     if err:
         ctx.fail('correspondence', 'model evaluation failed: ' + err[-600:], None)
-    for b in bad[:5]:
+    bad = bad[:12]
+    bad_sh, err = common.coq_failing_indices('cases_c03_sh', imports, 'check_shares', [coq_cases[b] for b in bad]) if bad else ([], None)
+    if err:
+        ctx.fail('correspondence', 'model evaluation failed: ' + err[-600:], None)
+    for k, b in enumerate(bad):
         cfg, ci = coq_src[b]
-        ctx.fail('correspondence', 'Model/Store.v does not allow the change the %s configuration made (a tensor outside may_change changed)' % cfg,
-                 {'stream': 'history', 'config': cfg, 'case': cases[ci], 'report': out[cfg][len(mps_cases) + ci]})
+        what = ('two tensors own common block memory in the %s configuration, but share no buffer in Model/Store.v (a result or receiver '
+                'that the model builds from fresh buffers is a view of another live tensor; the hypothesis shares_buffer = false of the '
+                'frame theorems does not hold for the code)' % cfg if k in bad_sh else
+                'Model/Store.v does not allow the change the %s configuration made (a tensor outside may_change changed)' % cfg)
+        ctx.fail('correspondence', what, {'stream': 'history', 'config': cfg, 'case': cases[ci], 'report': out[cfg][len(mps_cases) + ci]})
     ctx.cov['traces_validated_against_impl'] = len(coq_cases)
+    ctx.cov['memory_sharing_pairs_checked_against_model'] = npairs
     # ---- MPS / MPO / Krylov
     for cfg in ('py', 'cy'):
         for ci, c in enumerate(mps_cases):
@@ -330,6 +449,20 @@ def main(ctx):
                       'get_B_form_conversion_pure', 'get_B_converted_independent', 'get_theta_independent', 'get_W_copy_independent'):
                 if not r.get(k):
                     ctx.fail('oracle', '[%s] MPS/MPO aliasing contract violated: %s is False' % (cfg, k), info, match_key='C03:mps:' + k)
+            acc = r.get('accessors') or {}
+            ctx.cov['mps_accessor_calls'] = ctx.cov.get('mps_accessor_calls', 0) + acc.get('calls', 0)
+            ctx.cov['mps_accessor_documented_views'] = ctx.cov.get('mps_accessor_documented_views', 0) + acc.get('shared_documented', 0)
+            if not acc.get('pure', False):
+                ctx.fail('oracle', '[%s] calling the accessors of the MPS/MPO (get_B, get_theta, get_SL/SR, get_W, get_rho_segment, copy) '
+                         'changed the network' % cfg, info, match_key='C03:mps:accessors-not-pure')
+            if acc.get('n_errors', 0) > 0.2 * max(1, acc.get('calls', 0)):
+                ctx.fail('correspondence', '[%s] too many accessor calls failed: %s' % (cfg, acc.get('errors')), info)
+            for sh in acc.get('shared_undocumented', []):
+                ctx.fail('oracle', '[%s] %s (MPS stored in forms %s) returned a tensor that owns memory in common with %s stored in the '
+                         'network, although only get_B/get_W(copy=False), MPO.copy and get_SL/get_SR are documented to hand out stored data; '
+                         'writing +1 into the buffers of the returned tensor (what theta *= x / iadd_prefactor_other / theta[idx] = x do) '
+                         'changed: %s' % (cfg, sh['call'], acc.get('forms'), sh['shares_with'], sh.get('write_changed')),
+                         dict(info, accessor=sh), match_key='C03:mps:%s:hidden-buffer-sharing' % sh['accessor'])
             for name, m in r['measurements'].items():
                 if m['psi_changed'] or m['psi2_changed'] or m['mpo_changed']:
                     ctx.fail('oracle', '[%s] %s changed its operands: psi parts %s, other state %s, MPO %s' % (
